@@ -743,7 +743,10 @@ type OptionType struct {
 func (self OptionType) Kind() TypeKind                { return OptionTypeKind }
 func (self OptionType) String() string                { return fmt.Sprintf("?%s", self.Inner) }
 func (self OptionType) Span() errors.Span             { return self.Range }
-func (self OptionType) SetSpan(span errors.Span) Type { return NewOptionType(self.Inner, span) }
+func (self OptionType) SetSpan(span errors.Span) Type {
+	// Like for lists, the inner type moves along: a mismatch of the inner types is reported at this span.
+	return NewOptionType(self.Inner.SetSpan(span), span)
+}
 func (self OptionType) Fields(span errors.Span) map[string]Type {
 	return map[string]Type{
 		"is_some": NewFunctionType(
